@@ -24,6 +24,7 @@ from xml.etree import ElementTree as ET
 from xsdata.formats.dataclass.context import XmlContext
 from xsdata.formats.dataclass.models.generics import AnyElement, DerivedElement
 from xsdata.formats.dataclass.parsers import DictDecoder, JsonParser, XmlParser
+from xsdata.formats.dataclass.parsers.handlers import XmlEventHandler
 from xsdata.formats.dataclass.serializers import DictEncoder, JsonSerializer, XmlSerializer
 
 warnings.simplefilter("ignore")
@@ -246,7 +247,8 @@ def tree_of_cls(c):
 class Instances:
     def __init__(self):
         self.ctx = TracingContext()
-        self.xp = XmlParser(context=self.ctx)
+        self.xp = XmlParser(context=self.ctx)                              # default handler (lxml, recovering)
+        self.xn = XmlParser(context=self.ctx, handler=XmlEventHandler)     # native handler (expat)
         self.xs = XmlSerializer(context=self.ctx)
         self.jp = JsonParser(context=self.ctx)
         self.js = JsonSerializer(context=self.ctx)
@@ -264,7 +266,8 @@ def run_op(inst, op):
         if k == "ser":
             return {"ok": tree_of_xml(inst.xs.render(to_obj(op["value"])))}
         if k == "parse":
-            return {"ok": tree_of_obj(inst.xp.from_string(op["doc"], clz(op["clazz"])))}
+            p = inst.xn if op.get("handler") == "native" else inst.xp
+            return {"ok": tree_of_obj(p.from_string(op["doc"], clz(op["clazz"])))}
         if k == "enc":
             return {"ok": tree_of_json(inst.de.encode(to_obj(op["value"])))}
         if k == "jser":
@@ -403,6 +406,8 @@ def main():
             del clazz
         for name in mods:
             sys.modules.pop(name, None)
+        if not made and not mods:
+            continue
         made, mods = [], []
         import typing
         for clear in getattr(typing, "_cleanups", []):
